@@ -175,7 +175,7 @@ func (c15) Gen(rt *rapid.T, thorough bool) any {
 		// layout element
 		s.Attrs = append(s.Attrs, PAttr{Name: "layout", How: rapid.SampledFrom([]string{"omit", "set", "set", "bad", "untyped"}).Draw(rt, "layout_how"),
 			Val: rapid.SampledFrom([]string{"TextLayout", "JSONLayout"}).Draw(rt, "layout_type")})
-		s.Attrs = append(s.Attrs, PAttr{Name: "loggerLayout", How: rapid.SampledFrom([]string{"none", "none", "omit", "set", "bad", "empty", "dangling", "unknown-logger", "unknown-appender", "no-ref"}).Draw(rt, "ll_how"),
+		s.Attrs = append(s.Attrs, PAttr{Name: "loggerLayout", How: rapid.SampledFrom([]string{"none", "none", "omit", "set", "bad", "empty", "dangling", "unknown-logger", "unknown-appender", "no-ref", "ref-leaf", "ref-empty-list"}).Draw(rt, "ll_how"),
 			Val: rapid.SampledFrom([]string{"TextLayout", "JSONLayout"}).Draw(rt, "ll_type")})
 		s.Attrs = append(s.Attrs, PAttr{Name: "width", How: rapid.SampledFrom([]string{"omit", "set"}).Draw(rt, "width_how"), Val: rapid.SampledFrom([]string{"5", "48", "120"}).Draw(rt, "width")})
 	case "mutate":
@@ -312,6 +312,15 @@ func (c c15) runProbe(x *Exec, s *C15Scn) {
 			case "unknown-appender":
 				cfg["appender.other.type"] = "NoSuchAppender"
 				wantErr = "unknown appender type"
+			case "ref-leaf":
+				// the element key holds a plain value instead of an element
+				delete(cfg, "logger.root."+caseKey("appenderRef", s.Style.KeyCase)+".ref")
+				cfg["logger.root."+caseKey("appenderRef", s.Style.KeyCase)] = "pb"
+				wantErr = "missing required element: appenderRef is a plain value, not an element"
+			case "ref-empty-list":
+				delete(cfg, "logger.root."+caseKey("appenderRef", s.Style.KeyCase)+".ref")
+				cfg["logger.root."+caseKey("appenderRef", s.Style.KeyCase)] = []string{"[]", "{}", "<nil>"}[len(a.Val)%3]
+				wantErr = "missing required element: appenderRef is an empty collection"
 			case "no-ref":
 				delete(cfg, "logger.root."+caseKey("appenderRef", s.Style.KeyCase)+".ref")
 				cfg["logger.root.level"] = "INFO"
